@@ -692,7 +692,7 @@ add('c15-answer-remembered-without-the-mode', ['C15', 'C09'], 'fire', 'Recipe.ge
     'the remembered list depends on the mode, the key does not name it')
 
 # ------------------------------------------------------------------------------------------------ rules added after round 9
-add('c06-noise-clamp-in-base-units', ['C06', 'C14'], 'fire', 'Unit.convert',
+add('c06-noise-clamp-in-base-units', ['C06'], 'fire', 'Unit.convert',
     'return Unit.convert_from(substance, value, quantity_unit, unit)',
     'if abs(value) < 10 ** (-config.internal_precision):\n        value = 0.0\n    return Unit.convert_from(substance, value, quantity_unit, unit)',
     'the internal precision counts digits of storage units, the parsed value is in base units')
